@@ -141,7 +141,9 @@ def judge(mats, conns, log):
             got = log.count(t)
             if got > want:
                 return ("C12:duplicate-execution:%s" % m["k"], "token %s of connection %d (%s) executed %d times, expected %d" % (t, i, m["k"], got, want))
-            if got < want:
+            if got < want and m["k"] != "abandon":
+                # (a client that went away without reading is owed nothing: its request runs at most once; on a busy plain TCP
+                # server the kernel may drop such a connection before the server ever accepts it)
                 return ("C12:lost-execution:%s" % m["k"], "token %s of connection %d (%s) executed %d times, expected %d" % (t, i, m["k"], got, want))
     return None
 
